@@ -353,8 +353,21 @@ class IkeSa(object):
 
     def process_message(self, data):
         # parse the whole message (including encrypted data)
-        message = Message.parse(data, header_only=False, crypto=self.peer_crypto)
+        try:
+            message = Message.parse(data, header_only=False, crypto=self.peer_crypto)
+        except IkeSaError as ex:
+            self.log_error(f'Received a malformed or unprotected message: {ex}. Ignoring')
+            return None
         self.log_message(message, data, send=False)
+
+        # once we have keys, the only acceptable IKE_SA_INIT message is a retransmission of the request
+        if self.peer_crypto is not None and message.exchange_type == Message.Exchange.IKE_SA_INIT:
+            if (message.is_request and message.is_initiator != self.is_initiator and message.message_id == 0
+                    and self.state == IkeSa.State.INIT_RES_SENT):
+                self.log_warning('Retransmission detected. Sending last sent message')
+                return self.last_sent_response_data
+            self.log_error('Received an IKE_SA_INIT message for an IKE_SA that has keys. Ignoring')
+            return None
 
         # check the role the sender claims to have corresponds with what we think about ourselves
         if message.is_initiator == self.is_initiator:
